@@ -34,6 +34,9 @@ CHECKS = {
     'C03': dict(tech=SYMX, ref='3/C03',
                 text='For every evaluation of the real cost(x) with arbitrary x, densities, kT, omega: at every grid point with r_i <= sigma of a hard-core pair the recorded closure output satisfies c + x/r = -1 exactly - all four closures with the flag over an arbitrary potential (every core size), PY and HNC without the flag over HardSphere/HardCoreLennardJones/Exponential using the IEEE fact exp(t)=0 for t<=-746 under the stated preconditions on high_value/kT, rank 2 with the hard pair in every position among arbitrary soft pairs, list-assigned tables, explicit potential sigma; on a solved object (root stub) totalCorr+1 = fun/r at core points.',
                 note='Preconditions are stated on the user parameters (high_value/kT >= 746; for HNC also high_value/kT - gamma >= 746). MSA/MS without the flag excluded as the property says. Root finder stubbed as in C01.'),
+    'C04': dict(tech=SYMX, ref='3/C04',
+                text='The self-consistency map x -> (cost(x), totalCorr, directCorr, omega) of the real code is proven, for every symmetric trial vector and all symbolic parameters, (i) equivariant under re-ordering the type list (rank 2 incl. list-assigned tables; rank 3: quick = createPRISM wiring for all 5 orders, thorough = full map with C(k) arbitrary), (ii) equal for a monatomic fluid and its A/A\' split at any ratio (NoIntra and InterMolecular cross omega) and for a homopolymer and its symmetric diblock halves with exact block omegas (all pair functions equal the unsplit one), (iii) unchanged when every energy parameter and kT (assigned, as in a sweep) are multiplied by lambda for every shipped potential, with pmf scaling by lambda. Zeros of equal/equivariant maps correspond, which is the statement about solutions.',
+                note='Which zero scipy converges to is outside. Matrix stage at rank 3 is proven for arbitrary C(k) (forward transform havoc\'d on the Domain instance) and composed with the separately proven equalities via lemma-carrying abstraction. N=2.'),
 }
 
 NOT_YET = {}
